@@ -46,14 +46,26 @@ Fixpoint add_missing (acc : list bitem) (l : list bitem) : list bitem :=
   | it :: l' => add_missing (if has_src (fst it) acc then acc else (acc ++ [it])%list) l'
   end.
 
+(** single-file input with an output location: is the output the file to write, or a
+    directory that receives a file named like the input?  ([collect_work], first arm.)
+    A function of three facts about the output path only: it exists as a directory, it exists
+    as a file, its last component has an extension (ANY extension, [Path::extension]). *)
+Inductive output_kind := AsFile | InsideDirectory.
+
+Definition output_decision (is_dir is_file has_extension : bool) : output_kind :=
+  if is_dir then InsideDirectory
+  else if is_file || has_extension then AsFile
+  else InsideDirectory.
+
 (** [collect_work]; [None] = the error "unable to extract file name from ..." *)
 Definition collect (f : fs) (input : path) (output : option path) : option (list bitem) :=
   match output with
   | Some out =>
     if fs_is_file f input then
-      if fs_is_dir f out then option_map (fun n => [(input, out ++ [n])%list]) (file_name input)
-      else if fs_is_file f out || is_some (path_extension out) then Some [(input, out)]
-      else option_map (fun n => [(input, out ++ [n])%list]) (file_name input)
+      match output_decision (fs_is_dir f out) (fs_is_file f out) (is_some (path_extension out)) with
+      | AsFile => Some [(input, out)]
+      | InsideDirectory => option_map (fun n => [(input, out ++ [n])%list]) (file_name input)
+      end
     else Some (add_missing [] (map (fun s => (s, rebase input out s)) (fs_collect f input)))
   | None => Some (add_missing [] (map (fun s => (s, s)) (fs_collect f input)))
   end.
